@@ -77,7 +77,12 @@ pub fn check(sc: &Scenario, ex: &Exec, a: &Analysis) -> Vec<Violation> {
             // (a) nothing is written after it
             if ex.io.out.len() > r.end {
                 let more = finals.len() > j + 1;
-                v.push(viol(P, "a", &format!("bytes-after-closing-response:{why}"), format!(
+                let produced_at = ex.log.iter().position(|e| matches!(e, Event::Responded { handler, .. } if Some(*handler) == r.tag()));
+                let how = match produced_at {
+                    Some(pos) => buffered(ex, a, pos, j + 1),
+                    None => "n/a",
+                };
+                v.push(viol(P, "a", &format!("bytes-after-closing-response:{why}:{how}"), format!(
                     "response #{j} (status {}) announced the end of the connection ({why}) but {} more bytes were written after it{}",
                     r.status, ex.io.out.len() - r.end, if more { format!(" (another response, status {})", finals[j + 1].status) } else { String::new() })));
             }
@@ -86,7 +91,7 @@ pub fn check(sc: &Scenario, ex: &Exec, a: &Analysis) -> Vec<Violation> {
         let produced_at = ex.log.iter().position(|e| matches!(e, Event::Responded { handler, .. } if Some(*handler) == r.tag()));
         if let Some(pos) = produced_at {
             if let Some((n, d)) = a.dispatched.iter().enumerate().find(|(_, d)| d.log_index > pos) {
-                v.push(viol(P, "b", &format!("dispatch-after-closing-response:{why}"), format!(
+                v.push(viol(P, "b", &format!("dispatch-after-closing-response:{why}:{}", buffered(ex, a, pos, n)), format!(
                     "request #{n} ({} {}) was dispatched after the handler of request #{j} had produced the response that announces close ({why})",
                     d.method, d.target)));
             }
@@ -100,6 +105,20 @@ pub fn check(sc: &Scenario, ex: &Exec, a: &Analysis) -> Vec<Violation> {
         }
     }
     v
+}
+
+/// Had the head of request `n` already been taken from the socket when the closing response was
+/// produced (log position `pos`)? "buffered" = it was pipelined in the read buffer.
+fn buffered(ex: &Exec, a: &Analysis, pos: usize, n: usize) -> &'static str {
+    let consumed = match &ex.log[pos] {
+        Event::Responded { consumed, .. } => *consumed,
+        _ => 0,
+    };
+    match a.stream.spans.get(n) {
+        Some((_, head_end, _)) if *head_end <= consumed => "already-buffered",
+        Some(_) => "read-afterwards",
+        None => "n/a",
+    }
 }
 
 pub fn nontrivial(_ex: &Exec, a: &Analysis) -> bool {
